@@ -4,6 +4,7 @@ package govc
 
 import (
 	"fmt"
+	"os"
 	"go/types"
 	"sort"
 	"strings"
@@ -69,7 +70,7 @@ func (x *Exec) callStatic(fr *Frame, st *State, fn *ssa.Function, args []Val, bi
 	}
 	// 3. inline
 	if len(fn.Blocks) > 0 {
-		vals, out := x.execFunc(fn, args, bindings, st, cs, false)
+		vals, out := x.execFuncIn(fr, fn, args, bindings, st, cs, false)
 		if out == nil {
 			// callee never returns on this path (panics): path ends
 			st.PC = x.C.False()
@@ -479,6 +480,20 @@ func (x *Exec) applyContract(fr *Frame, st *State, sp *FuncSpec, sig *types.Sign
 		t := x.evalBool(r.E, env)
 		x.oblige(st, "pre", calleeLabel(sp)+"."+r.Label, site, r.Src, t)
 	}
+	// call-site assertions of the calling unit (callpre)
+	if fr != nil && fr.spec != nil && fr.spec.CallPre != nil {
+		name := sp.Name
+		if cl, ok := fr.spec.CallPre[name]; ok {
+			cenv := x.frameEnv(fr, pre)
+			for k, v := range env.Vars {
+				cenv.Vars[k] = v
+			}
+			for _, cpre := range cl {
+				t := x.evalBool(cpre.E, cenv)
+				x.oblige(st, "callpre", calleeLabel(sp)+"."+cpre.Label, site, cpre.Src, t)
+			}
+		}
+	}
 	// havoc footprint
 	if !sp.Pure {
 		ms := x.evalModSet(sp, env)
@@ -498,7 +513,11 @@ func (x *Exec) applyContract(fr *Frame, st *State, sp *FuncSpec, sig *types.Sign
 	}
 	env.Cur = st
 	for _, e := range sp.Ensures {
-		x.assume(st, x.evalBool(e.E, env))
+		t := x.evalBool(e.E, env)
+		if os.Getenv("GOVC_DEBUG") != "" && !x.dry {
+			fmt.Printf("  assume %s.%s at %s: trivial=%v size=%d\n", calleeLabel(sp), e.Label, site, isTrue(t), len(t.String()))
+		}
+		x.assume(st, t)
 	}
 	_ = c
 	return results
